@@ -374,11 +374,15 @@ def better_feasible_point(des, wt, sc, cons, pos, act):
     return None
 
 
-def rec_large(des, wt, sc, cons, first=None):
+def rec_large(des, wt, sc, cons, first=None, base=0):
+    """`base`: the instance is solved at desired positions base + des (unit scales only: separation constraints are then invariant
+    under translation) and recorded relative to base, exactly."""
     n = len(des)
     pos, uns, act, ret, term, calls, err = run_solver(
-        [float(d) for d in des], [float(w) for w in wt], [float(s) for s in sc],
-        [(a, b, float(g)) for a, b, g in cons], None if first is None else [float(d) for d in first])
+        [float(d + base) for d in des], [float(w) for w in wt], [float(s) for s in sc],
+        [(a, b, float(g)) for a, b, g in cons], None if first is None else [float(d + base) for d in first])
+    if base:
+        pos = [float(Fraction(p) - base) for p in pos]      # exact: both are integers or halves far below 2^53
     # integer scales: multiply scales and gaps by 2; weights by 100
     sc2 = [int(s * 2) for s in sc]
     rec = {
@@ -426,7 +430,17 @@ def main():
             cons = [tuple(c) for c in inst["cons"]]
             recs.append(rec_small(inst["des"], inst["wt"], inst["sc"], cons, inst.get("first") or None))
     while len(recs) < job["count"]:
-        if mode in ("large", "heavy", "reslarge"):
+        if mode == "heavyfar":
+            # wall-like weights at desired positions of the order of 1e8 .. 1e12 (unit scales)
+            des, wt, sc, cons = gen_heavy(rng)
+            sc = [Fraction(1)] * len(des)
+            rec = rec_large(des, wt, sc, cons, None, base=rng.choice([10 ** 8, 10 ** 9, 10 ** 10, 10 ** 12]))
+            if any(p is None for p in rec["pos5"]):
+                rec["pos5"] = [0] * len(des)
+                rec["pos6"] = [0] * len(des)
+                rec["terminated"] = 0          # positions thousands of units away from every desired position: no solution
+            recs.append(rec)
+        elif mode in ("large", "heavy", "reslarge"):
             des, wt, sc, cons = gen_heavy(rng) if mode == "heavy" else gen_large(rng)
             first = None
             if mode == "reslarge":
